@@ -6,6 +6,7 @@ import (
 	"reflect"
 	"sort"
 	"sync"
+	"sync/atomic"
 	"time"
 
 	"github.com/junioryono/godi/v4"
@@ -97,6 +98,26 @@ func (r *Runner) Build(order []int) *Obs {
 		}
 		var p godi.Provider
 		var err error
+		if resume := r.W.Resume(); resume != nil {
+			// the rest of the registration calls arrives while Build is under way
+			lc := &lateCtx{Context: context.Background(), at: int32(r.W.Cfg.LateAt), done: make(chan error, 1), resume: resume}
+			p, err = r.Coll.BuildWithContext(lc)
+			lc.start() // (Build never reached that poll: the calls are made now)
+			select {
+			case rerr := <-lc.done:
+				if rerr != nil && err == nil {
+					r.W.anomaly("a registration call made while Build was under way failed: %v", rerr)
+				}
+			case <-time.After(20 * time.Second):
+				r.W.anomaly("registration calls made while Build was under way have not returned 20 s after Build did")
+			}
+			o.Err = err
+			if err == nil {
+				r.P = p
+				r.Scopes[0] = &ScopeRec{Tag: 0, Parent: -1, Created: true}
+			}
+			return
+		}
 		switch r.W.Cfg.BuildMode {
 		case 1:
 			ctx, cancel := context.WithCancel(context.WithValue(context.Background(), ctxKeyT{-1}, "build"))
@@ -163,6 +184,40 @@ func (r *Runner) BuildWithContext(ctx context.Context) *Obs {
 }
 
 type ctxKeyT struct{ n int }
+
+// lateCtx is the context of a Build during which another goroutine goes on registering: the at-th
+// time Build asks for Done() that goroutine is started, and Build is held up until it has finished
+// or is evidently blocked (30 ms; the wait decides which interleaving is realised, never a verdict).
+type lateCtx struct {
+	context.Context
+	calls  atomic.Int32
+	at     int32
+	once   sync.Once
+	done   chan error
+	resume func() error
+}
+
+func (c *lateCtx) start() {
+	c.once.Do(func() {
+		fin := make(chan struct{})
+		go func() {
+			err := c.resume()
+			c.done <- err
+			close(fin)
+		}()
+		select {
+		case <-fin:
+		case <-time.After(30 * time.Millisecond):
+		}
+	})
+}
+
+func (c *lateCtx) Done() <-chan struct{} {
+	if c.calls.Add(1) == c.at {
+		c.start()
+	}
+	return c.Context.Done()
+}
 
 // CtxCommonKey is a key that every value-carrying context handed to CreateScope
 // uses (a request id): each scope sees the value of the context it was given.
